@@ -320,6 +320,11 @@ func (e *engine) build(inst int) *workflow.Workflow[Obj, st] {
 		toIdx[tc.status]++
 		timer := func(ctx context.Context, r *workflow.Run[Obj, st], now time.Time) (time.Time, error) {
 			view := r.Record
+			if tc.dur == -2 {
+				// a timer function that fails: the error comes back together with the zero time
+				e.userTok(3000000+1000*j+tc.status, &view, "e15")
+				return time.Time{}, userErr{15}
+			}
 			if tc.dur < 0 {
 				e.userTok(3000000+1000*j+tc.status, &view, "t-")
 				return time.Time{}, nil
